@@ -90,7 +90,7 @@ class RestartFamily:
         sc['sched'] = f'{base}-{store}-A'
         if store == 'sqlite':
             sc['watchdog_ms'] = 60000
-        return {'scenarios': [sc], 'meta': {'base': base, 'store': store, 'n_first_round': 1, 'basemeta': {k: v for k, v in (c.get('meta') or {}).items() if k in ('sub', 'kind', 'source', 'nested')}, 'pairs': opts.get('pairs', False)},
+        return {'scenarios': [sc], 'meta': {'base': base, 'store': store, 'n_first_round': 1, 'basemeta': {k: v for k, v in (c.get('meta') or {}).items() if k in ('sub', 'kind', 'source', 'nested')} | ({'sub': 'hooks+gen'} if (c.get('meta') or {}).get('hookgen') else {}), 'pairs': opts.get('pairs', False)},
                 'digest': digest([sc['models'], sc['ops'], sc['responder']['rules'], store]), 'nontrivial': True}
 
     def followup(self, c, opts, rnd):
